@@ -9,12 +9,15 @@ import (
 	"strings"
 
 	gerrors "github.com/ajitpratap0/GoSQLX/pkg/errors"
+	"github.com/ajitpratap0/GoSQLX/pkg/formatter"
 	"github.com/ajitpratap0/GoSQLX/pkg/gosqlx"
 	"github.com/ajitpratap0/GoSQLX/pkg/linter"
 	"github.com/ajitpratap0/GoSQLX/pkg/linter/rules/keywords"
 	"github.com/ajitpratap0/GoSQLX/pkg/linter/rules/whitespace"
 	"github.com/ajitpratap0/GoSQLX/pkg/models"
 	"github.com/ajitpratap0/GoSQLX/pkg/sql/ast"
+	sqlkw "github.com/ajitpratap0/GoSQLX/pkg/sql/keywords"
+	"github.com/ajitpratap0/GoSQLX/pkg/sql/parser"
 	"github.com/ajitpratap0/GoSQLX/pkg/sql/security"
 	"github.com/ajitpratap0/GoSQLX/pkg/sql/tokenizer"
 
@@ -164,8 +167,49 @@ func Recovery(sql string) string {
 	return project.String(stmts) + "|" + strings.Join(es, ";")
 }
 
+// FormatPkg runs pkg/formatter (keeps comments).
+func FormatPkg(sql string) string {
+	s, err := formatter.New(formatter.Options{Uppercase: true}).Format(sql)
+	if err != nil {
+		return "err:" + Err(err).String()
+	}
+	return s
+}
+
+// ParserValidate / ParserParseBytes use the pooled-parser entry points of pkg/sql/parser.
+func ParserValidate(sql string) string { return Err(parser.ValidateBytes([]byte(sql))).String() }
+
+func ParserParseBytes(sql string) string {
+	tree, err := parser.ParseBytes([]byte(sql))
+	if err != nil {
+		return "err:" + Err(err).String()
+	}
+	defer ast.ReleaseAST(tree)
+	return project.String(tree.Statements)
+}
+
+// ParseMySQL parses with the MySQL dialect (a differently configured instance).
+func ParseMySQL(sql string) string {
+	tree, err := parser.ParseWithDialect(sql, sqlkw.DialectMySQL)
+	if err != nil {
+		return "err:" + Err(err).String()
+	}
+	defer ast.ReleaseAST(tree)
+	return project.String(tree.Statements)
+}
+
+// ErrText renders the full text of the error (code, context, hint: exercises the suggestion cache).
+func ErrText(sql string) string {
+	_, err := gosqlx.Parse(sql)
+	if err == nil {
+		return "ok"
+	}
+	return err.Error()
+}
+
 // Kinds lists the operation kinds of property C10 in a fixed order.
-var Kinds = []string{"tokenize", "parse", "validate", "format", "extract", "scan", "lint", "recovery"}
+var Kinds = []string{"tokenize", "parse", "validate", "format", "extract", "scan", "lint", "recovery",
+	"formatpkg", "pvalidate", "pparsebytes", "parsemysql", "errtext"}
 
 // Do dispatches by kind.
 func Do(kind, sql string) string {
@@ -186,6 +230,16 @@ func Do(kind, sql string) string {
 		return Lint(sql)
 	case "recovery":
 		return Recovery(sql)
+	case "formatpkg":
+		return FormatPkg(sql)
+	case "pvalidate":
+		return ParserValidate(sql)
+	case "pparsebytes":
+		return ParserParseBytes(sql)
+	case "parsemysql":
+		return ParseMySQL(sql)
+	case "errtext":
+		return ErrText(sql)
 	}
 	panic("unknown op " + kind)
 }
